@@ -89,6 +89,20 @@ fn check_seq(c: &SeqCase, reps: usize, obs: &mut Obs) -> Verdict {
         }
     }
     execs += 3;
+    // a text diff over caller-defined tokens that compare by a key only (every occurrence has a
+    // different text): the ops may depend on the equality pattern alone
+    if c.is_full() {
+        use crate::oracle::keyed::Keyed;
+        let ko: Vec<Keyed> = c.old.iter().enumerate().map(|(i, x)| Keyed { key: *x, text: format!("k{} old #{}", x, i) }).collect();
+        let kn: Vec<Keyed> = c.new.iter().enumerate().map(|(j, x)| Keyed { key: *x, text: format!("K{} NEW #{}", x, j) }).collect();
+        let (ro, rn): (Vec<&Keyed>, Vec<&Keyed>) = (ko.iter().collect(), kn.iter().collect());
+        match guard(|| similar::TextDiff::configure().algorithm(alg_of(c.alg)).diff_slices(&ro, &rn).ops().to_vec()) {
+            Ok(o) if o == base => {}
+            Ok(o) => return Verdict::Fail(format!("{}: a text diff over caller-defined tokens that compare by key gives {:?}, u32 items with the same equality pattern give {:?}", alg_name(c.alg), o, base)),
+            Err(p) => return Verdict::Fail(format!("TextDiff::diff_slices over caller-defined tokens: {}", p)),
+        }
+        execs += 1;
+    }
     obs.executions = execs;
     // how many unique common items (Patience / hashing actually involved)
     let mut cnt: std::collections::HashMap<u32, (u32, u32)> = std::collections::HashMap::new();
@@ -178,8 +192,40 @@ fn strat(tier: Tier) -> BoxedStrategy<Case> {
         let (or, nr) = ranges_from(rr, a.len(), b.len());
         SeqCase { alg, old: a, new: b, or, nr, mode: 0, k: None }
     });
+    // more than 100 items per side WITH repeats and a long common head and tail (an item can be
+    // unique between head and tail although it recurs inside them)
+    let long_repeats = (prop_oneof![Just(30u32), Just(80), Just(250)], proptest::collection::vec(0u32..1000, 101..=tier.pick(260usize, 500)), proptest::collection::vec((0u8..4, any::<u16>(), 1u8..6, 0u32..1000), 1..=8), 0u8..3).prop_map(|(k, a, es, alg)| {
+        let a: Vec<u32> = a.into_iter().map(|x| x % k).collect();
+        let mut b = a.clone();
+        for (kind, at, len, val) in es {
+            let n = b.len();
+            if n < 2 {
+                break;
+            }
+            // edits stay in the middle third so that a common head and tail survive
+            let p = n / 3 + pos(at, n / 3);
+            let l = (len as usize).min(n - p);
+            match kind {
+                0 => {
+                    b.drain(p..p + l);
+                }
+                1 => b.insert(p, val % k),
+                2 => {
+                    let run: Vec<u32> = b.drain(p..p + l).collect();
+                    let q = n / 3 + pos(at.wrapping_mul(13), (b.len() - n / 3).min(n / 3));
+                    for (i, x) in run.into_iter().enumerate() {
+                        b.insert(q + i, x);
+                    }
+                }
+                _ => b[p..p + l].reverse(),
+            }
+        }
+        // LCS tables of this size are slow: Myers and Patience only
+        SeqCase::full(if alg == 2 { 1 } else { alg }, a, b)
+    });
     prop_oneof![
         16 => uniq_heavy.prop_map(Case::Seq),
+        6 => long_repeats.prop_map(Case::Seq),
         // more than 100 unique items per side with crossing anchors
         // more than 1000 unique items per side (size-gated code paths)
         1 => (perm_pair(1030, tier.pick(1400, 2600)), 0u8..2).prop_map(|((a, b), alg)| Case::Seq(SeqCase::full(alg, a, b))),
@@ -196,7 +242,7 @@ impl Prop for C20 {
     type Case = Case;
     const ID: &'static str = "C20";
     fn rule() -> String {
-        "cases = Seq(algorithm, old, new, ranges) biased to many unique items with block moves and reversals (so hash-map iteration order could matter) | Text(old, new valid UTF-8, tokenizer in {lines, words, chars}, algorithm), sizes below and above 100 tokens. Each Seq case is executed 1 + 8 times in the same thread and in 4 freshly spawned threads (every HashMap::new() and every new thread draws fresh hasher keys), and under two order-preserving injective relabellings (u64 x -> 7919x+13, zero-padded Strings), with items whose lawful Hash only sees two bits of the value, and with different element types on the two sides (old u64, new Id32: PartialEq<u64> with an unrelated Hash); all op lists must be identical. Families include permutations of 90-400 and of 1030-1400/2600 distinct items. Text: str ops == [u8] ops, repeated runs identical. Non-trivial = >= 3 unique common items and >= 2 ops (Seq) / > 100 tokens (Text); distinct = distinct serialized case.".into()
+        "cases = Seq(algorithm, old, new, ranges) biased to many unique items with block moves and reversals (so hash-map iteration order could matter) | Text(old, new valid UTF-8, tokenizer in {lines, words, chars}, algorithm), sizes below and above 100 tokens. Each Seq case is executed 1 + 8 times in the same thread and in 4 freshly spawned threads (every HashMap::new() and every new thread draws fresh hasher keys), and under two order-preserving injective relabellings (u64 x -> 7919x+13, zero-padded Strings), with items whose lawful Hash only sees two bits of the value, and with different element types on the two sides (old u64, new Id32: PartialEq<u64> with an unrelated Hash); all op lists must be identical; full-range cases are also diffed as a TEXT diff (TextDiffConfig::diff_slices) over caller-defined DiffableStr tokens that compare by a key only while every occurrence has a different text. Families include sequences of 101-260/500 items with repeats and a long common head and tail, permutations of 90-400 and of 1030-1400/2600 distinct items. Text: str ops == [u8] ops, repeated runs identical. Non-trivial = >= 3 unique common items and >= 2 ops (Seq) / > 100 tokens (Text); distinct = distinct serialized case.".into()
     }
     fn assumptions() -> Vec<String> {
         vec![
